@@ -320,6 +320,11 @@ class Calls:
                 result = RefVal(this_path if rr == 'this' else names[rr])
             elif rt[0] == 'void':
                 result = None
+            elif c.value is not None:
+                # the contract fixes the result as a term of the arguments: substitute it (no fresh symbol)
+                result = S.spec_eval_term(c.value, env_pre, extra)
+                if rt[0] == 'real' and z3.is_expr(result) and z3.is_int(result):
+                    result = z3.ToReal(result)
             else:
                 result = fresh(rt, ex.fresh_name('ret_' + c.name.split('::')[-1]))
                 self.type_inv(ex, result, rt)
